@@ -103,6 +103,7 @@ def mark2(spike, repo):
     annot = []
     inrw = False
     adepth = 0
+    rwbuf = []
 
     def flush():
         nonlocal annot
@@ -120,9 +121,14 @@ def mark2(spike, repo):
             flush(); inrw = True; out.append(ln); continue
         if inrw:
             if s.startswith('//@<'):
-                t = toks(s[4:]) or []
-                assert R[ri:ri + len(t)] == t, ('rw orig mismatch', s, R[ri:ri + 8])
-                ri += len(t)
+                rwbuf.append(s[4:])
+            else:
+                if rwbuf:
+                    # the original lines of a rewrite are lexed together (a token such as a string literal may span lines)
+                    t = toks('\n'.join(rwbuf)) or []
+                    assert R[ri:ri + len(t)] == t, ('rw orig mismatch', rwbuf[0], R[ri:ri + 8])
+                    ri += len(t)
+                    rwbuf.clear()
             if s == '//@>':
                 inrw = False
             out.append(ln)
